@@ -112,6 +112,9 @@ type c18Case struct {
 	// RealHealth: the replicas' records are published by the health check of each replica's own
 	// mysync, reading the disk probe (a missing report = a probe that fails), not written by hand
 	RealHealth bool `json:"replica_records_from_their_own_health_checks,omitempty"`
+	// MasterSSOff: rpl_semi_sync_master_enabled is off on the master (first pass after a mysqld restart,
+	// after a maintenance) while rpl_semi_sync_master_wait_for_slave_count still holds the count
+	MasterSSOff bool `json:"master_side_semi_sync_off,omitempty"`
 }
 
 func (c c18Case) String() string {
@@ -124,8 +127,11 @@ func (c c18Case) String() string {
 		t = append(t, fmt.Sprintf("master=%s replicas=[%s]", c18LevelNames[tk.Master], strings.Join(rl, ",")))
 	}
 	real := ""
+	if c.MasterSSOff {
+		real = " master-side-semi-sync-off"
+	}
 	if c.RealHealth {
-		real = " replica-records-from-real-health-checks"
+		real += " replica-records-from-real-health-checks"
 	}
 	return fmt.Sprintf("thr=%s ro=%d keep=%v wc=%d ticks={%s}%s", c18ThrOf(c).Name, c.RO, c.Keep, c.WC, strings.Join(t, "; "), real)
 }
@@ -200,7 +206,7 @@ func c18Run(r *vt.Run, c c18Case) {
 		w.LogStmts = r.Replay != nil
 		m := w.Servers["h1"]
 		m.ReadOnly, m.SuperRO = c.RO >= 1, c.RO == 2
-		m.SSMaster, m.WaitCount = true, c.WC
+		m.SSMaster, m.WaitCount = !c.MasterSSOff, c.WC
 		a := h.Start("h1")
 		ra := map[string]*App{}
 		if c.RealHealth {
@@ -249,7 +255,7 @@ func c18Run(r *vt.Run, c c18Case) {
 			}
 			ms := &nodestate.NodeState{IsMaster: true, IsReadOnly: m.ReadOnly, IsSuperReadOnly: m.SuperRO,
 				MasterState:   &nodestate.MasterState{ExecutedGtidSet: m.Executed.String()},
-				SemiSyncState: &nodestate.SemiSyncState{MasterEnabled: true, WaitSlaveCount: c.WC}}
+				SemiSyncState: &nodestate.SemiSyncState{MasterEnabled: !c.MasterSSOff, WaitSlaveCount: c.WC}}
 			if u, ok := c18Used(th, tk.Master); ok {
 				ms.DiskState = &nodestate.DiskState{Used: u, Total: c18Total}
 			}
@@ -433,6 +439,25 @@ func checkC18(r *vt.Run) {
 							c18Run(r, c)
 						}
 					}
+				}
+			}
+		}
+	}
+	// the master side of semi-sync switched off while the count variable still holds the count
+	for ro := 0; ro < 3; ro++ {
+		for _, wc := range []int{1, 2} {
+			for _, ml := range masterLevels {
+				for _, rs := range repSets {
+					if len(rs) == 0 {
+						continue
+					}
+					idx++
+					if !r.Mine(idx) {
+						continue
+					}
+					c := c18Case{Thr: 0, RO: ro, WC: wc, Ticks: []c18Tick{{Master: ml, Replicas: rs}}, MasterSSOff: true}
+					r.Crumb(c)
+					c18Run(r, c)
 				}
 			}
 		}
